@@ -1603,10 +1603,15 @@ func (w *Walker) evalCallOperands(call *ast.CallExpr, st *State) (recv []*Term, 
 		}
 		cur = next
 	}
+	// (a pure module function writes nothing but its own locals, through pointers or otherwise)
+	pureCallee := false
+	if fn := w.staticCallee(call); fn != nil && w.A.isPure(fn) {
+		pureCallee = true
+	}
 	for _, c := range cur {
 		// a field handed over by address may be written by the callee
 		for _, t := range c.args {
-			if t != nil && t.K == KCall && t.Name == "addr" && len(t.Args) == 1 && t.Args[0].K == KField {
+			if t != nil && t.K == KCall && t.Name == "addr" && len(t.Args) == 1 && t.Args[0].K == KField && !pureCallee {
 				w.write(locOf(t.Args[0].Name), KillAny, nil, nil, c.st, call)
 			}
 		}
@@ -1803,6 +1808,10 @@ func (w *Walker) eval(e ast.Expr, st *State) []evalRes {
 	case *ast.StarExpr:
 		var out []evalRes
 		for _, r := range w.eval(x.X, st) {
+			if r.t != nil && r.t.K == KCall && r.t.Name == "addr" && len(r.t.Args) == 1 {
+				out = append(out, evalRes{r.st, r.t.Args[0]}) // *(&x) is x
+				continue
+			}
 			out = append(out, evalRes{r.st, mkTerm(KCall, "deref", r.t)})
 		}
 		return out
